@@ -19,8 +19,10 @@ VERIF = os.path.dirname(os.path.dirname(os.path.abspath(__file__)))
 REPO = os.environ.get('VERIF_REPO', '/repo')
 COQ = os.path.join(VERIF, 'coq')
 THEORIES = os.path.join(COQ, 'theories')
-WORK = os.path.join(VERIF, 'work')
-EVIDENCE = os.path.join(VERIF, 'evidence')
+# the three output locations can be redirected (development runs beside a registered run)
+WORK = os.environ.get('VERIF_WORK', os.path.join(VERIF, 'work'))
+EVIDENCE = os.environ.get('VERIF_EVIDENCE', os.path.join(VERIF, 'evidence'))
+REPLAYS = os.environ.get('VERIF_REPLAYS', os.path.join(VERIF, 'replays'))
 NCPU = min(16, os.cpu_count() or 4)
 
 
@@ -335,7 +337,7 @@ class Run:
         self.assumptions = []
         self.known = [f for f in load_known_findings().get('findings', []) if f.get('property') == prop]
         self.wd = workdir(prop)
-        for old in __import__('glob').glob(os.path.join(VERIF, 'replays', '%s_%s_*.json' % (prop, tier))):
+        for old in __import__('glob').glob(os.path.join(REPLAYS, '%s_%s_*.json' % (prop, tier))):
             os.remove(old)
         self._distinct = set()
         self.rng = random.Random(seed)
@@ -377,7 +379,7 @@ class Run:
             print('KNOWN-FINDING: property=%s %s' % (self.prop, what))
         self.cov['known_findings_seen'] = [k for k, _ in self.known_seen]
         rc = 0
-        replay_dir = os.path.join(VERIF, 'replays')
+        replay_dir = REPLAYS
         lines = []
         if self.violations:
             os.makedirs(replay_dir, exist_ok=True)
